@@ -5,6 +5,7 @@ import (
 	"compress/flate"
 	"fmt"
 	"io"
+	"math/big"
 	"math/rand"
 	"strings"
 
@@ -44,22 +45,22 @@ type rOpts struct {
 }
 
 type rGen struct {
-	rng    *rand.Rand
-	sc     *scenario
-	log    *evlog
-	opt    rOpts
-	srv    bool // reader is the server (peer frames are masked)
-	nego   bool
-	rbuf   int
-	limit  int64
-	frames []gFrame
-	msgs   []gMsg
-	stream []byte
-	cut    int    // bytes actually delivered by the transport
-	violAt int    // index of the violating frame, -1
-	viol   string // description
-	topBit bool   // the violation is a 64-bit length with the top bit set
-	term   error
+	rng        *rand.Rand
+	sc         *scenario
+	log        *evlog
+	opt        rOpts
+	srv        bool // reader is the server (peer frames are masked)
+	nego       bool
+	rbuf       int
+	limit      int64
+	frames     []gFrame
+	msgs       []gMsg
+	stream     []byte
+	cut        int    // bytes actually delivered by the transport
+	violAt     int    // index of the violating frame, -1
+	viol       string // description
+	topBit     bool   // the violation is a 64-bit length with the top bit set
+	term       error
 	hp, hq, hc string
 	// runtime
 	c        *websocket.Conn
@@ -560,6 +561,14 @@ func (g *rGen) setup() {
 		cs = "-"
 	}
 	g.sc.emit(fmt.Sprintf("feed c0 %s term=%s tog=%d", cs, termTok, b2i(g.t.together)), "ok")
+	if r.Intn(5) == 0 {
+		// the application set a write deadline long ago: best-effort close / pong frames written by the
+		// reader use their own deadline (now + writeWait) and must not depend on it
+		d := []int{-1, -3, 2}[r.Intn(3)]
+		g.c.SetWriteDeadline(tokTime(d))
+		g.sc.emit(fmt.Sprintf("swd c0 %d", d), "ok")
+		g.sc.tag("stale-write-deadline")
+	}
 	if g.opt.wfaults && r.Intn(2) == 0 {
 		k := r.Intn(4)
 		g.t.faults[k] = fault{kind: "fail", id: 60 + k}
@@ -1005,6 +1014,50 @@ func readerOracle(g *rGen) {
 			}
 		}
 	}
+	// C06: read limit (judged on wire sizes, independent of the model)
+	if g.limit > 0 && g.violAt < 0 {
+		has1009 := false
+		for _, f := range frames {
+			if f.op == 8 && len(f.payload) >= 2 && int(f.payload[0])<<8|int(f.payload[1]) == 1009 {
+				has1009 = true
+			}
+		}
+		for h := range g.rdata {
+			mi := g.rmsg[h]
+			if mi >= len(g.msgs) {
+				continue
+			}
+			raw := int64(len(g.msgs[mi].raw))
+			if g.rdone[h] && raw > g.limit {
+				sc.violate("message %d has %d payload bytes on the wire and was read in full although the read limit is %d", mi, raw, g.limit)
+			}
+			if !g.msgs[mi].compressed && int64(len(g.rdata[h])) > g.limit {
+				sc.violate("%d bytes of message %d were delivered although the read limit is %d", len(g.rdata[h]), mi, g.limit)
+			}
+		}
+		if g.firstErr == "readLimit" {
+			exceeded := false
+			for mi := 0; mi < len(g.msgs) && mi <= g.nrOK; mi++ {
+				if int64(len(g.msgs[mi].raw)) > g.limit {
+					exceeded = true
+				}
+			}
+			if !exceeded && g.cut == len(g.stream) {
+				sc.violate("ErrReadLimit although every message received so far is within the limit %d (what the application did with earlier messages must not matter)", g.limit)
+			}
+			if len(g.t.faults) == 0 && !has1009 {
+				anyClose := false
+				for _, f := range frames {
+					if f.op == 8 {
+						anyClose = true
+					}
+				}
+				if !anyClose {
+					sc.violate("read limit %d exceeded but no close frame with status 1009 was sent", g.limit)
+				}
+			}
+		}
+	}
 	// after a violation nothing of it or after it may surface
 	for h, d := range g.rdata {
 		if g.rmsg[h] >= len(g.msgs) && len(d) > 0 {
@@ -1087,9 +1140,15 @@ func runFuzzScenario(seed int64) *scenario {
 			case 1:
 				l = [8]byte{0x80, 0, 0, 0, 0, 0, 0, 0}
 			case 2:
-				l = [8]byte{0, 0, 0, 1, 0, 0, 0, 0}
+				// a large but allocatable claim: 16 MiB .. 128 MiB
+				l = [8]byte{0, 0, 0, 0, byte(1 << uint(r.Intn(4))), 0, 0, 0}
 			default:
 				r.Read(l[:])
+				l[0] &= 0x7f
+				if r.Intn(2) == 0 {
+					l[0], l[1], l[2], l[3] = 0, 0, 0, 0 // below 4 GiB
+					l[4] &= 0x0f
+				}
 			}
 			b = append(append(append([]byte(nil), b[:i]...), append(hdr, l[:]...)...), b[i+2:]...)
 		}
@@ -1136,6 +1195,7 @@ func runFuzzScenario(seed int64) *scenario {
 	var ms0, ms1 runtimeMem
 	ms0.read()
 	delivered := 0
+	firstErr := ""
 	for i := 0; i < 30; i++ {
 		var t int
 		var p []byte
@@ -1156,6 +1216,7 @@ func runFuzzScenario(seed int64) *scenario {
 		}
 		delivered += len(p)
 		if err != nil {
+			firstErr = errName(err)
 			if t > 0 {
 				sc.emit("rm c0", g.line(fmt.Sprintf("err %s %d %s", errName(err), t, hx(p))))
 			} else {
@@ -1169,9 +1230,98 @@ func runFuzzScenario(seed int64) *scenario {
 	if delivered > len(b) {
 		sc.violate("delivered %d payload bytes from a %d-byte stream", delivered, len(b))
 	}
+	// C06 on arbitrary streams: if, walking the frame headers independently, the first irregular event is a
+	// data frame whose claimed length takes the message's running sum over the limit, the first error
+	// the application sees is ErrReadLimit
+	if limit > 0 && firstErr != "" && limitIsFirstEvent(b, g.srv, limit) && firstErr != "readLimit" {
+		sc.violate("a frame takes the running sum of its message over the read limit %d before anything else is wrong with the stream, but the reader reported %q instead of ErrReadLimit", limit, firstErr)
+	}
 	if d := ms1.total - ms0.total; d > uint64(64*len(b)+(1<<20)) {
 		sc.violate("receiving a %d-byte stream allocated %d bytes", len(b), d)
 	}
 	sc.emit("wire c0", "ok "+hx(g.t.wire))
 	return sc
+}
+
+// limitIsFirstEvent walks the frame headers of a peer stream (independently of the package and of the
+// model) and reports whether the first thing that is not a complete, valid frame is a data frame whose
+// claimed length makes the running sum of its message exceed limit. Anything else irregular first
+// (protocol violation, close frame, truncation inside an earlier frame, top-bit length) => false.
+func limitIsFirstEvent(b []byte, srv bool, limit int64) bool {
+	pos := 0
+	inMsg := false
+	sum := new(big.Int)
+	lim := big.NewInt(limit)
+	for {
+		if pos+2 > len(b) {
+			return false
+		}
+		b0, b1 := b[pos], b[pos+1]
+		fin, rsv, op := b0&0x80 != 0, b0&0x70, int(b0&0x0f)
+		masked, l7 := b1&0x80 != 0, int(b1&0x7f)
+		if rsv != 0 || masked != srv {
+			return false
+		}
+		h := 2
+		n := new(big.Int)
+		switch l7 {
+		case 126:
+			if pos+4 > len(b) {
+				return false
+			}
+			n.SetUint64(uint64(b[pos+2])<<8 | uint64(b[pos+3]))
+			h = 4
+		case 127:
+			if pos+10 > len(b) {
+				return false
+			}
+			if b[pos+2]&0x80 != 0 {
+				return false
+			}
+			var v uint64
+			for i := 0; i < 8; i++ {
+				v = v<<8 | uint64(b[pos+2+i])
+			}
+			n.SetUint64(v)
+			h = 10
+		default:
+			n.SetInt64(int64(l7))
+		}
+		if masked {
+			h += 4
+		}
+		switch {
+		case op == 8:
+			return false
+		case op == 9 || op == 10:
+			if !fin || l7 > 125 {
+				return false
+			}
+		case op == 1 || op == 2:
+			if inMsg {
+				return false
+			}
+			sum.SetInt64(0)
+		case op == 0:
+			if !inMsg {
+				return false
+			}
+		default:
+			return false
+		}
+		if op <= 2 {
+			sum.Add(sum, n)
+			if pos+h > len(b) {
+				return false // the header itself (mask key) is cut
+			}
+			if sum.Cmp(lim) > 0 {
+				return true
+			}
+			inMsg = !fin
+		}
+		if pos+h > len(b) || !n.IsInt64() || n.Int64() > int64(len(b)-pos-h) {
+			return false // an earlier frame is cut short
+		}
+		pos += h + int(n.Int64())
+	}
 }
